@@ -28,6 +28,8 @@ OPS = {
     'stated': ('internal::state< VSD, R<0> >::match< A%d, M%d, nothing, normal >( in, os )', 'VSD', None),
     'chstate': ('change_state< VS >::match< R<0>, A%d, M%d, ACS, normal >( in, os )', 'VS', 'action-only'),
     'chstated': ('change_state< VSD >::match< R<0>, A%d, M%d, ACSD, normal >( in, os )', 'VSD', 'action-only'),
+    # the same switch reached the way a grammar reaches it: normal< Rule >::match dispatches to Action< Rule >::match in every apply mode
+    'nchstate': ('normal< R<0> >::match< A%d, M%d, ACS, normal >( in, os )', 'VS', 'action-only'),
     'chactst': ('change_action_and_state< NA2, VS >::match< R<0>, A%d, M%d, ACAS, normal >( in, os )', 'VS', 'action-only'),
     'chactstd': ('change_action_and_state< NA2, VSD >::match< R<0>, A%d, M%d, ACASD, normal >( in, os )', 'VSD', 'action-only'),
     'chaction': ('change_action< NA >::match< R<0>, A%d, M%d, nothing, normal >( in )', None, None),
@@ -118,10 +120,11 @@ def jobs(tier):
                     con.add(c)
                 con.add(E('!vf_exc.pending ==> (g_called[0] && g_ncalls[0] == 1 && RET == g_ok[0] && (RET ==> CONSUMED(in) == g_len[0]))', 'SWITCH-IS-TRANSPARENT-FOR-RESULT-AND-CURSOR', P))
                 if st:
-                    act = {'chstate': 'vf::ACS', 'chstated': 'vf::ACSD', 'chactst': 'vf::NA2', 'chactstd': 'vf::NA2'}.get(op)
+                    act = {'chstate': 'vf::ACS', 'nchstate': 'vf::ACS', 'chstated': 'vf::ACSD', 'chactst': 'vf::NA2', 'chactstd': 'vf::NA2'}.get(op)
                     stubs.append((r'^bool vf::R<\d+>::match<', rule_stub_state(a, m, action=act)))
-                    stubs.append((r'vf::%s::%s[<(]' % (st, st), ctor_stub(st == 'VS')))
-                    stubs.append((r'vf::%s::~%s\(' % (st, st), dtor_stub()))
+                    opt_ = ('opt',) if op == 'nchstate' else ()     # via normal<>::match: should the dispatch be skipped the state is never built; the life-cycle clauses report it
+                    stubs.append((r'vf::%s::%s[<(]' % (st, st), ctor_stub(st == 'VS')) + opt_)
+                    stubs.append((r'vf::%s::~%s\(' % (st, st), dtor_stub()) + opt_)
                     stubs.append((r'vf::%s::success<' % st, success_stub(), 'opt'))     # not called at all when actions are disabled (change_state)
                     want_succ = 'g_ok[0]' if mode is None else ('(g_ok[0] && %d)' % a)
                     con.add(E('g_nctor == 1 && g_ndtor == 1 && g_s == S_DEAD', 'STATE-LIVES-EXACTLY-FOR-THE-ATTEMPT', P))
